@@ -46,7 +46,64 @@ type Defs struct {
 	list   []*Def
 	byName map[string]*Def
 	ctr    int
-	inline int // >0: under a quantifier binder: definitions are not named
+	inline int // >0: under a quantifier binder: definitions become let-bindings of that binder
+	lets   [][]letBinding
+}
+
+type letBinding struct{ name, body string }
+
+// PushBinder / PopBinder bracket the evaluation of a quantifier body: definitions made in
+// between are local `let`s (they may mention the bound variable). PopBinder wraps body.
+func (d *Defs) PushBinder() {
+	d.inline++
+	d.lets = append(d.lets, nil)
+}
+
+func (d *Defs) PopBinder(body string) string {
+	d.inline--
+	ls := d.lets[len(d.lets)-1]
+	d.lets = d.lets[:len(d.lets)-1]
+	for i := len(ls) - 1; i >= 0; i-- {
+		body = "(let ((" + ls[i].name + " " + ls[i].body + ")) " + body + ")"
+	}
+	return body
+}
+
+// expandLets substitutes the let-bound names of the open binders in a (small) term.
+func (d *Defs) expandLets(t string) string {
+	for k := len(d.lets) - 1; k >= 0; k-- {
+		ls := d.lets[k]
+		for i := len(ls) - 1; i >= 0; i-- {
+			if strings.Contains(t, ls[i].name) {
+				t = replaceSym(t, ls[i].name, ls[i].body)
+			}
+		}
+	}
+	return t
+}
+
+func replaceSym(t, name, body string) string {
+	var b strings.Builder
+	i := 0
+	for i < len(t) {
+		j := strings.Index(t[i:], name)
+		if j < 0 {
+			b.WriteString(t[i:])
+			break
+		}
+		j += i
+		end := j + len(name)
+		okL := j == 0 || !isSymChar(t[j-1])
+		okR := end >= len(t) || !isSymChar(t[end])
+		b.WriteString(t[i:j])
+		if okL && okR {
+			b.WriteString(body)
+		} else {
+			b.WriteString(name)
+		}
+		i = end
+	}
+	return b.String()
 }
 
 func newDefs() *Defs { return &Defs{byName: map[string]*Def{}} }
@@ -81,8 +138,17 @@ func (d *Defs) Declare(prefix, sort string) string {
 // Define introduces name = body.
 func (d *Defs) Define(prefix, sort, body string) string {
 	// do not name atoms
-	if isAtom(body) || d.inline > 0 {
+	if isAtom(body) {
 		return body
+	}
+	if d.inline > 0 {
+		if len(body) < 40 || len(d.lets) == 0 {
+			return body
+		}
+		d.ctr++
+		n := fmt.Sprintf("l$%d", d.ctr)
+		d.lets[len(d.lets)-1] = append(d.lets[len(d.lets)-1], letBinding{n, body})
+		return n
 	}
 	n := d.fresh(prefix)
 	df := &Def{Name: n, Sort: sort, Body: body, idx: len(d.list)}
